@@ -77,8 +77,25 @@ func shortName(full string) string {
 	return full
 }
 
+// extraIntrinsics: additional intrinsic tables (one per intrinsics_*.go file), tried before the built-in ones.
+var extraIntrinsics []func(in *Interp, fn *ssa.Function, name string, args []V) (V, bool)
+
 func (in *Interp) intrinsic(fn *ssa.Function, name string, args []V, initCtx bool) (V, bool) {
 	sn := shortName(name)
+	if in.spec != nil {
+		if target, ok := in.spec.Redirects[name]; ok {
+			tf := in.spec.lp.pkg.Func(target)
+			if tf == nil {
+				panic(unsupported("redirect target " + target + " not found in harness package"))
+			}
+			return in.call(tf, args, false), true
+		}
+	}
+	for _, f := range extraIntrinsics {
+		if r, ok := f(in, fn, name, args); ok {
+			return r, true
+		}
+	}
 	if strings.HasPrefix(sn, "verif") {
 		switch sn {
 		case "verifU8":
